@@ -621,6 +621,42 @@ def handleRevocationEvent (K : KeyEnv) (n : Node) (r : Revocation) (fault : Stor
   | .err e => if e == "store:context" then (.retry, n) else (.fatal, n)
   | .panic _ => (.fatal, n)
 
+/-! ## the issuer's `Revoke` (vcr/issuer/issuer.go) -/
+
+/-- the loop of `revokeStatusList`: the first credentialStatus of type StatusList2021Entry whose purpose is revocation
+    (entries of that type with another purpose are skipped with `continue`, other types are not looked at) -/
+def firstRevocationEntry : List StatusEntry → Option StatusEntry
+  | [] => none
+  | st :: rest =>
+    if st.type == "StatusList2021Entry" then
+      if st.purpose != "revocation" then firstRevocationEntry rest else some st
+    else firstRevocationEntry rest
+
+/-- `buildRevocation`: the revocation of credential `id` names the DID part of the id as issuer and is signed with that
+    DID's assertion key `kid` (`sig` = the proof value the key store produced) -/
+def buildRevocation (id kid sig : String) (date : Nat) : Revocation :=
+  { subject := id, issuer := prefixOf id, date := some date, proof := some { vm := kid, sig := sig } }
+
+/-- `issuer.Revoke`: did:nuts credentials (or ids that are no DID URL) are revoked by a published network revocation —
+    refused with ErrRevoked when the issuer's own store already holds one —, all others through their status list entry -/
+inductive RevokeRoute where
+  | network (r : Revocation)
+  | alreadyRevoked
+  | statusList (e : StatusEntry)
+  | statusNotFound
+  deriving DecidableEq, Repr
+
+def issuerRevokeRoute (nutsMethod alreadyRevoked : Bool) (c : Cred) (id kid sig : String) (date : Nat) : RevokeRoute :=
+  if nutsMethod then
+    if alreadyRevoked then .alreadyRevoked else .network (buildRevocation id kid sig date)
+  else
+    match c.statuses with
+    | none => .statusNotFound              -- `CredentialStatuses()` of a credential without status: empty, the loop does not run
+    | some sts =>
+      match firstRevocationEntry sts with
+      | some e => .statusList e
+      | none => .statusNotFound
+
 /-! ## histories on two nodes -/
 
 /-- what can happen in the two-node world. `entryTx` is the write half of some `Entry` call with whatever row its select
